@@ -28,7 +28,7 @@ func init() {
 	core.Register(&core.Property{
 		ID:    "C08",
 		Level: "model_checking",
-		Rule: "universe = (a) every sequence of <=5 (thorough <=6) lines over 16 line shapes (headers good/bad, '#', blank, metavariable declarations good/bad, -/+/context lines, elision lines) with and without final newline; (b) every sequence of <=4 (thorough <=5) tokens over a 33-token alphabet as the '-' side against a fixed '+' side and vice versa; (c) every byte prefix of every patch in /repo/testdata and /repo/examples; (d) the radius-1 token neighbourhood of each of those patches (each token deleted, duplicated, swapped with its neighbour, replaced by each alphabet token); (f) the radius-1 byte neighbourhood of those patches (each byte deleted; each of 14 (thorough 31) hostile bytes incl. NUL, 0xff, CR inserted before / written over every position); (g) every real patch and 7 stress patches against every construct of the catalogue in context and against deeply nested / long sources (nesting 10..300, thorough ..1000); (h) 14 unusual file headers (empty comment lines, /**/, BOM, //line, markers) x 3 bodies x 5 flag sets through the CLI; (i) a target tree whose symbolic links form cycles; every sequence of <=3 lines of a -P list over {valid, missing, empty, blanks, tab, '#', trailing blanks} with and without final newline; (e) well-formed but ill-typed patches: every metavariable kind in every slot kind on either side with captures of every filler kind. Each runs patch.Parse and, if accepted, Apply on target files that contain every construct; a slice also through the CLI (-p and stdin). " +
+		Rule: "universe = (a) every sequence of <=5 (thorough <=6) lines over 16 line shapes (headers good/bad, '#', blank, metavariable declarations good/bad, -/+/context lines, elision lines) with and without final newline; (b) every sequence of <=4 (thorough <=5) tokens over a 33-token alphabet as the '-' side against a fixed '+' side and vice versa; (c) every byte prefix of every patch in /repo/testdata and /repo/examples; (d) the radius-1 token neighbourhood of each of those patches (each token deleted, duplicated, swapped with its neighbour, replaced by each alphabet token); (f) the radius-1 byte neighbourhood of those patches (each byte deleted; each of 14 (thorough 31) hostile bytes incl. NUL, 0xff, CR inserted before / written over every position); (g) every real patch and 7 stress patches against every construct of the catalogue in context and against deeply nested / long sources (nesting 10..300, thorough ..1000); (h) 14 unusual file headers (empty comment lines, /**/, BOM, //line, markers) x 3 bodies x 5 flag sets through the CLI; (i) a target tree whose symbolic links form cycles; every sequence of <=3 lines of a -P list over {valid, missing, empty, blanks, tab, '#', trailing blanks} with and without final newline; (j) every sequence of <=5 (thorough <=6) body lines over 7 lines with elisions on the -, + and context side; (e) well-formed but ill-typed patches: every metavariable kind in every slot kind on either side with captures of every filler kind. Each runs patch.Parse and, if accepted, Apply on target files that contain every construct; a slice also through the CLI (-p and stdin). " +
 			"Oracle: terminates (watchdog), no panic or fatal error, and either success or an error value / non-zero exit with a diagnostic. non-trivial = the patch is accepted by patch.Parse (the engine runs)",
 		Assumptions: []string{"a case that does not return within the watchdog limit of 10 s (normal cost < 1 ms) is re-run in isolation before it is reported as a hang"},
 		Bounds: func(tier string) map[string]any {
@@ -155,6 +155,15 @@ func c08Gen(tier string, emit func(any)) {
 			emit(&C08Case{Family: "a-lines-cli", Patch: txt + "\n", Files: c08Targets[1:], CLI: "p"})
 			emit(&C08Case{Family: "a-lines-cli", Patch: txt + "\n", Files: c08Targets[1:], CLI: "stdin"})
 		}
+	})
+	// (j) body lines carrying elisions in every order (elisions of the two sides are paired by line and position)
+	dotLines := []string{"-foo(...)", "+bar(...)", " ctx(...)", "+baz(..., x, ...)", "-foo(x)", "+bar(x)", " ..."}
+	dotTarget := []string{"package p\n\nfunc f() {\n\tfoo(1, 2)\n\tctx(3)\n\tfoo(4)\n\tmid()\n\tctx()\n\tfoo()\n}\n"}
+	seqsEach(dotLines, ll, func(s []string) {
+		if len(s) == 0 {
+			return
+		}
+		emit(&C08Case{Family: "j-elision-lines", Patch: "@@\nvar x expression\n@@\n" + strings.Join(s, "\n") + "\n", Files: dotTarget})
 	})
 	// (b) token strings on one side
 	seqsEach(c08TokenAlphabet, tl, func(s []string) {
